@@ -77,6 +77,7 @@ GENERATED = {
     "prims/LockGen.v": "translate_lock.py", "prims/SemGen.v": "translate_prims.py", "prims/LimiterGen.v": "translate_prims.py",
     "prims/CondGen.v": "translate_cond.py", "prims/MemGen.v": "translate_mem.py",
     "pure/BufGen.v": "translate_buffered.py", "pure/TextGen.v": "translate_text.py",
+    "scopes/TimeoutGen.v": "translate_timeouts.py",
 }
 
 
